@@ -351,7 +351,7 @@ def term_str(t: Term) -> str:
         return f"-({term_str(t[1])})"
     if k == "fn":
         return f"{t[1]}({term_str(t[2])})"
-    op = {"add": "+", "sub": "-", "mul": "*", "div": "/", "pow": "^", "mod": "%"}[k]
+    op = {"add": "+", "sub": "-", "mul": "*", "div": "/", "pow": "^", "mod": "%", "eq": "="}[k]
     return f"({term_str(t[1])} {op} {term_str(t[2])})"
 
 
